@@ -19,6 +19,7 @@ import (
 	"github.com/IrineSistiana/mosproxy/verifsim/vipv6"
 	"github.com/IrineSistiana/mosproxy/verifsim/vnet"
 	"github.com/IrineSistiana/mosproxy/verifsim/vsync"
+	"github.com/maypok86/otter"
 )
 
 // Result is what one run reports to the campaign driver.
@@ -78,6 +79,7 @@ func installKnobs(s *sim.Sim, k plan.Knobs) {
 	vbytes.PassDoubleRelease = k.PassDoubleRelease
 	vbytes.Report = func(clause, detail string) { s.Fail("C20", clause, "%s", detail) }
 	vsync.PoolPoison = k.PoolPoison
+	otter.SetSimBatch(k.OtterBatch)
 	vsync.PoolQuarantine = k.PoolQuarantine
 	vsync.PoolReport = func(clause, detail string) { s.Fail("C20", "pooled-object-"+clause, "%s", detail) }
 	if k.UDPMaxBatch > 0 {
@@ -134,6 +136,33 @@ func installKnobs(s *sim.Sim, k plan.Knobs) {
 			s.Logf("yield", "%s %d", st, int64(d))
 			time.Sleep(d)
 		}
+		// right after a read/write lock was released: mostly short, one in
+		// ten as long as a scheduler quantum (a goroutine that lost the CPU
+		// between leaving the critical section and its next statement)
+		vsync.HookU = func(pc uintptr) {
+			if yieldPaused.Load() {
+				return
+			}
+			st := site(pc)
+			if k.YieldMask != 0 && (k.YieldMask>>(sim.HashStr(st)&63))&1 == 0 {
+				return
+			}
+			siteMu.Lock()
+			siteCtr["U"+st]++
+			n := siteCtr["U"+st]
+			siteMu.Unlock()
+			forceU := false
+			if !forceU && !s.Coin("U:"+st, n, k.YieldDensity/2) {
+				return
+			}
+			d := s.Dur("Ud:"+st, n, 50, 20_000)
+			if forceU || s.Coin("Ul:"+st, n, 0.1) {
+				d = s.Dur("Ud2:"+st, n, 20_000, 5_000_000)
+			}
+			s.Fault("yield_after_unlock")
+			s.Logf("yield", "U %s %d", st, int64(d))
+			time.Sleep(d)
+		}
 		vsync.Hook = func(pc uintptr) {
 			if yieldPaused.Load() {
 				return
@@ -176,6 +205,7 @@ var yieldPaused atomic.Bool
 func uninstallKnobs() {
 	vsync.Hook = nil
 	vsync.HookY = nil
+	vsync.HookU = nil
 	vsync.Pick = nil
 	vbytes.Drain()
 	vbytes.Report = nil
